@@ -204,6 +204,9 @@ class EventLog(Entity):
         self._retention_policy = retention_policy
         self._append_latency = append_latency
         self._read_latency = read_latency
+        if retention_check_interval <= 0:
+            # a periodic timer with a zero period re-arms itself at the current instant forever
+            raise ValueError(f"retention_check_interval must be > 0, got {retention_check_interval}")
         self._retention_check_interval = retention_check_interval
 
         self._partitions: list[Partition] = [Partition(id=i) for i in range(num_partitions)]
